@@ -26,6 +26,13 @@ Theorem C10_admitted_history_preserves_tree : forall c rs Q0,
 Proof. exact tree_history. Qed.
 Print Assumptions C10_admitted_history_preserves_tree.
 
+(* queue status (allocated pods; state Open / Closed / Closing / Unknown) is no part of any clause:
+   every status update keeps the invariant, e.g. a closed child still counts in its parent's sums *)
+Theorem C10_status_update_keeps_tree : forall c Q n a st,
+  1 <= max_depth c -> TreeInv c Q -> TreeInv c (apply_req Q (EnvStatus n a st)).
+Proof. exact tree_status_update. Qed.
+Print Assumptions C10_status_update_keeps_tree.
+
 (* the shape part alone *)
 Theorem C10_shape_history : forall c Q0 rs,
   1 <= max_depth c -> ShapeInv c Q0 -> ShapeInv c (run_history c Q0 rs).
@@ -109,5 +116,6 @@ Print Assumptions C10_prefix_depth_refuted.
 Example C10_hypotheses_satisfiable :
   1 <= max_depth ex_cfg /\ TreeInv ex_cfg ex_Q /\
   verdicts ex_cfg ex_Q ex_history =
-  [VAllowed; VSiblingSum; VAllowed; VCycle; VRootParent; VAllowed; VAllowed; VCapAncestor; VAllowed; VDelChildren].
+  [VAllowed; VAllowed; VSiblingSum; VAllowed; VSpec; VAllowed; VAllowed; VCycle; VRootParent; VAllowed; VAllowed;
+   VCapAncestor; VAllowed; VDelChildren].
 Proof. split; [done|]. split; [exact ex_tree_inv|exact ex_history_verdicts]. Qed.
